@@ -376,12 +376,30 @@ Proof.
   exists p. split; [rewrite (lookup_weq w w' _ E); exact H2|exact H3].
 Qed.
 
-Lemma live_user_ok (w : world) (u : ufun) (v : record) : live w v -> user_ok u v (lookup_run w (r_run v)) = true.
+(* the function is invoked for the status it is registered on (timeouts: and the run is not finished) *)
+Definition fn_at (w : world) (u : ufun) (v : record) : Prop :=
+  match u with
+  | UFTimeout s _ => r_status v = s /\ exists p, lookup_run w (r_run v) = Some p /\ rs_finished (r_state p) = false
+  | UFCallback s _ => r_status v = s
+  | _ => True
+  end.
+
+Lemma fn_at_stable u v : stable (fun w => fn_at w u v).
 Proof.
-  intros [(p & Hp & S1 & S2 & S3 & S4 & S5 & S6 & S7 & S8 & S9) (p' & Hp' & Hs)].
-  rewrite Hp in Hp'. inversion Hp'; subst p'. unfold user_ok. destruct (is_step_fn u); [|reflexivity].
+  intros w w' E H. destruct u; cbn in *; try exact H. destruct H as [H1 (p & H2 & H3)]. split; [exact H1|].
+  exists p. split; [rewrite (lookup_weq w w' _ E); exact H2|exact H3].
+Qed.
+
+Lemma live_user_ok (w : world) (u : ufun) (v : record) : live w v -> fn_at w u v -> user_ok u v (lookup_run w (r_run v)) = true.
+Proof.
+  intros [(p & Hp & S1 & S2 & S3 & S4 & S5 & S6 & S7 & S8 & S9) (p' & Hp' & Hs)] Hat.
+  rewrite Hp in Hp'. inversion Hp'; subst p'. unfold user_ok. destruct (is_step_fn u) eqn:Eu; [|reflexivity].
   rewrite Hp, Hs, S8, obj_eqb_refl, S6, S3, !Z.eqb_refl. cbn.
-  apply N.eqb_eq. unfold lookup_run in Hp. apply find_first_some in Hp as [_ Hq]. apply N.eqb_eq in Hq. now rewrite Hq.
+  assert (Hr : (r_run v =? r_run p)%N = true).
+  { apply N.eqb_eq. unfold lookup_run in Hp. apply find_first_some in Hp as [_ Hq]. apply N.eqb_eq in Hq. now rewrite Hq. }
+  rewrite Hr. cbn. destruct u; try reflexivity; cbn in Hat.
+  - rewrite <- S3, Hat. apply Z.eqb_refl.
+  - destruct Hat as [H1 (p2 & H2 & H3)]. rewrite Hp in H2. inversion H2; subst p2. rewrite <- S3, H1, Z.eqb_refl, H3. reflexivity.
 Qed.
 
 Definition invoke_post (K : world -> Prop) (view : record) (r : res (obj * (Z + err) * record)) (s : ost) : Prop :=
@@ -397,13 +415,13 @@ Proof. intros Hq HK HP HQ s Hs. apply HQ. eapply quiet_Inv; eauto. Qed.
 
 Lemma invoke_t (K : world -> Prop) (u : ufun) (b : beh) (status : Z) (view : record) :
   stable K ->
-  triple (fun s => Inv s /\ K (o_w s) /\ live (o_w s) view) (invoke c u b status view) (invoke_post K view).
+  triple (fun s => Inv s /\ K (o_w s) /\ live (o_w s) view /\ fn_at (o_w s) u view) (invoke c u b status view) (invoke_post K view).
 Proof.
   intros HK. unfold invoke.
-  set (K2 := fun w => K w /\ live w view).
-  assert (HK2 : stable K2) by (apply stable_and; [exact HK|apply live_stable]).
+  set (K2 := fun w => (K w /\ live w view) /\ fn_at w u view).
+  assert (HK2 : stable K2) by (apply stable_and; [apply stable_and; [exact HK|apply live_stable]|apply fn_at_stable]).
   eapply (t_seq _ _ _ (fun _ s => Inv s /\ K2 (o_w s))).
-  { eapply t_pre; [|apply (t_quiet _ K2 (quiet_att_bump _ _) HK2)]. intros s (HI & H1 & H2). split; [exact HI|split; assumption]. }
+  { eapply t_pre; [|apply (t_quiet _ K2 (quiet_att_bump _ _) HK2)]. intros s (HI & H1 & H2 & H3). split; [exact HI|split; [split; assumption|assumption]]. }
   2:{ intros e s [HI _]. split; [exact HI|]. intros; discriminate. }
   intros n. eapply (t_seq _ _ _ (fun r s => Inv s /\ K2 (o_w s) /\ r = Ok (o_w s))).
   { apply t_get_w. intros s [HI HKs]. auto. }
@@ -417,26 +435,26 @@ Proof.
     intros s s' (Hw & HI & HKs) E1 E2 E3. rewrite E1. split; [|exact HKs].
     destruct HI as (HW & Hn & Htr). split; [rewrite E1; exact HW|split; [rewrite E2; exact Hn|]].
     destruct E3 as [E|E]; rewrite E; [|exact Htr]. apply toks_ok_cons; [|exact Htr].
-    cbn. subst w. apply live_user_ok. apply HKs.
+    cbn. subst w. destruct HKs as [[_ HL] HF]. apply live_user_ok; assumption.
   - intros _. destruct act as [z|e| |].
-    + apply t_ret. intros s (HI & HKs & HL). split; [exact HI|]. intros o oc ctl Hx. inversion Hx; subst. right. auto.
-    + apply t_ret. intros s (HI & HKs & HL). split; [exact HI|]. intros o oc ctl Hx. inversion Hx; subst. left. auto.
+    + apply t_ret. intros s (HI & (HKs & HL) & HF). split; [exact HI|]. intros o oc ctl Hx. inversion Hx; subst. right. auto.
+    + apply t_ret. intros s (HI & (HKs & HL) & HF). split; [exact HI|]. intros o oc ctl Hx. inversion Hx; subst. left. auto.
     + eapply t_seq.
       * eapply t_pre; [|apply (ctl_do_t K2 view RSPaused 1%N HK2)].
         intros s (HI & HKs). split; [exact HI|split; [exact HKs|]]. intros r' Hr'.
-        eapply ctl_store_pre; try exact Hr'; try discriminate; [apply HI|apply HKs].
+        eapply ctl_store_pre; try exact Hr'; try discriminate; [apply HI|destruct HKs as [[_ [Hsy _]] _]; exact Hsy].
       * intros x. apply t_ret. intros s (HI & Hx). split; [exact HI|]. intros o oc ctl Hr. inversion Hr; subst.
         destruct (Hx x eq_refl) as [(_ & Hs & (e & He) & HKs)|(r' & Hu & Hs)].
-        -- rewrite He, Hs. left. destruct HKs. auto.
+        -- rewrite He, Hs. left. destruct HKs as [[A B] _]. auto.
         -- rewrite Hs. destruct (fst x); [left; reflexivity|right]. left. eapply ctl_update_state, Hu.
       * intros e s [HI _]. split; [exact HI|]. intros; discriminate.
     + eapply t_seq.
       * eapply t_pre; [|apply (ctl_do_t K2 view RSCancelled 3%N HK2)].
         intros s (HI & HKs). split; [exact HI|split; [exact HKs|]]. intros r' Hr'.
-        eapply ctl_store_pre; try exact Hr'; try discriminate; [apply HI|apply HKs].
+        eapply ctl_store_pre; try exact Hr'; try discriminate; [apply HI|destruct HKs as [[_ [Hsy _]] _]; exact Hsy].
       * intros x. apply t_ret. intros s (HI & Hx). split; [exact HI|]. intros o oc ctl Hr. inversion Hr; subst.
         destruct (Hx x eq_refl) as [(_ & Hs & (e & He) & HKs)|(r' & Hu & Hs)].
-        -- rewrite He, Hs. left. destruct HKs. auto.
+        -- rewrite He, Hs. left. destruct HKs as [[A B] _]. auto.
         -- rewrite Hs. destruct (fst x); [left; reflexivity|right]. right. eapply ctl_update_state, Hu.
       * intros e s [HI _]. split; [exact HI|]. intros; discriminate.
   - intros e s [HI _]. split; [exact HI|]. intros; discriminate.
@@ -606,8 +624,8 @@ Proof.
   - intros e' s [HI _]. exact HI.
 Qed.
 
-Lemma invoke_fn_ok u b st : fn_ok (invoke c u b st).
-Proof. intros K view HK. apply invoke_t, HK. Qed.
+Lemma invoke_fn_ok s0 b st : fn_ok (invoke c (UFStep s0) b st).
+Proof. intros K view HK. eapply t_pre; [|apply invoke_t, HK]. intros s (A & B & C). split; [exact A|split; [exact B|split; [exact C|exact I]]]. Qed.
 
 Lemma inserter_fn_ok (st : Z) (tos : list tocfg) : forall j, fn_ok (inserter_fn st tos j).
 Proof.
@@ -658,18 +676,24 @@ Proof.
       - intros r s (HI & _ & H). split; [exact HI|exact H]. }
     2:{ intros e' s [HI _]. exact HI. }
     intros r. destruct r as [r|]; [|apply t_fail; intros s [HI _]; exact HI].
-    apply t_if; intros _.
+    apply t_if; intros Hmv.
     { eapply t_pre; [|apply (t_inv_quiet _ (quiet_p_tcancel _))]. intros s [HI _]. exact HI. }
     apply t_if; intros Hns; [apply t_ret; intros s [HI _]; exact HI|].
     unfold build_run. destruct (r_obj r) eqn:Eo; [|apply t_fail; intros s [HI _]; exact HI].
-    eapply (t_seq _ _ _ (fun r0 s => r0 = Ok (promote r) /\ Inv s /\ live (o_w s) (promote r))).
-    { apply t_ret. intros s [HI Hl]. split; [reflexivity|split; [exact HI|]]. eapply live_promote; [symmetry; apply Hl; reflexivity|exact Hns]. }
+    eapply (t_seq _ _ _ (fun r0 s => r0 = Ok (promote r) /\ Inv s /\ live (o_w s) (promote r) /\ fn_at (o_w s) (UFTimeout st j) (promote r))).
+    { apply t_ret. intros s [HI Hl]. split; [reflexivity|split; [exact HI|]].
+      assert (Hlk : lookup_run (o_w s) (t_run t) = Some r) by (symmetry; apply Hl; reflexivity).
+      split; [eapply live_promote; [exact Hlk|exact Hns]|].
+      apply Bool.orb_false_iff in Hmv as [Hst Hfin]. apply Bool.negb_false_iff, Z.eqb_eq in Hst.
+      assert (Hpr : r_run (promote r) = t_run t /\ r_status (promote r) = r_status r).
+      { unfold lookup_run in Hlk. apply find_first_some in Hlk as [_ Hq]. apply N.eqb_eq in Hq. unfold promote. destruct (r_state r); cbn; auto. }
+      destruct Hpr as [Hp1 Hp2]. cbn. split; [congruence|]. exists r. rewrite Hp1. auto. }
     2:{ intros e' s (H & _). discriminate. }
-    intros view. apply t_pre with (P' := fun s => view = promote r /\ Inv s /\ live (o_w s) view).
-    { intros s (H & HI & Hl). inversion H; subst. auto. }
+    intros view. apply t_pre with (P' := fun s => view = promote r /\ Inv s /\ live (o_w s) view /\ fn_at (o_w s) (UFTimeout st j) view).
+    { intros s (H & HI & Hl & Hf). inversion H; subst. auto. }
     eapply t_seq.
     + eapply t_pre; [|apply (invoke_t (fun _ => True) (UFTimeout st j) (to_beh tc) st view (stable_const True))].
-      intros s (_ & HI & Hl). auto.
+      intros s (_ & HI & Hl & Hf). auto.
     + intros [[obj' oc] ctl].
       eapply (t_seq _ _ _ (fun _ s => Inv s)); [|intros _; apply IH|intros e' s HI; exact HI].
       destruct oc as [z|oe].
@@ -944,7 +968,7 @@ Proof.
   2:{ intros e s [HI _]. exact HI. }
   intros wr. destruct wr as [wr|]; [|apply t_fail; intros s [HI _]; exact HI].
   eapply (t_seq _ _ _ (fun _ s => Inv s)); [|intros _; apply IH|intros e s HI; exact HI].
-  apply t_if; intros _; [apply t_ret; intros s [HI _]; exact HI|].
+  apply t_if; intros Hst; [apply t_ret; intros s [HI _]; exact HI|].
   apply t_if; intros Hns; [apply t_ret; intros s [HI _]; exact HI|].
   unfold build_run. destruct (r_obj wr) eqn:Eo; [|apply t_fail; intros s [HI _]; exact HI].
   eapply (t_seq _ _ _ (fun r0 s => r0 = Ok (promote wr) /\ Inv s /\ live (o_w s) (promote wr))).
@@ -956,7 +980,8 @@ Proof.
   { intros s (H & HI & Hl). inversion H; subst. auto. }
   eapply t_seq.
   - eapply t_pre; [|apply (invoke_t (fun _ => True) (UFCallback status j) (cb_beh cb) status view (stable_const True))].
-    intros s (_ & HI & Hl). auto.
+    intros s (Hv & HI & Hl). split; [exact HI|split; [exact I|split; [exact Hl|]]]. cbn. subst view.
+    apply Bool.negb_false_iff, Z.eqb_eq in Hst. rewrite <- Hst. unfold promote. destruct (r_state wr); reflexivity.
   - intros [[obj' oc] ctl]. destruct oc as [z|oe].
     + apply t_if; intros Hskip; [apply t_ret; intros s [HI _]; exact HI|].
       eapply t_pre; [|apply updater_t]. intros s [HI H]. split; [exact HI|].
